@@ -42,7 +42,8 @@ STUBS = [
     "solver primitives addVar/addConstr/quicksum/setObjective/varName/variables/"
     "is_binary/getValue/solve replaced by the z3-capturing backend (as CBC does)",
     "enum: solve() = nondeterministic stub returning an optimum of (F ∧ cuts) for "
-    "uninterpreted F, O>=0; raises NoSolutionsError iff F ∧ cuts is empty",
+    "uninterpreted F, O>=0, with a reported objective within 1e-6 of the true one "
+    "(floating-point error of a real solver); raises NoSolutionsError iff F ∧ cuts is empty",
     "readback: ortools variable objects replaced by stubs with symbolic "
     "solution_value/lb/ub/integer; int()/isinstance() shadowed in aldy.lpinterface",
 ]
@@ -67,6 +68,10 @@ def BOUNDS(tier):
         + (" and test_{cn,major,minor}_real" if tier == "thorough" else "")
         + " (a corpus of instances; the verdict per instance is over all assignments)",
     ]
+
+
+DELTA = 1e-6
+DELTA_Z = z3.Q(1, 1000000)
 
 
 def configs(tier):
@@ -319,8 +324,11 @@ class EnumOracle:
             contract.append(z3.Implies(f, ox <= self.O(*[z3.BoolVal(b) for b in p])))
         self.eng.assume(z3.And(contract))
         self.cur = xs
-        self.returned.append((xs, ox))
-        return self.status, S(ox)
+        # the reported objective carries floating-point error: |reported - true| <= DELTA
+        rep = z3.Real(f"obj{self.calls}")
+        self.eng.assume(z3.And(rep - ox <= DELTA_Z, ox - rep <= DELTA_Z, rep >= 0))
+        self.returned.append((xs, ox, rep))
+        return self.status, S(rep)
 
     def value(self, model, var):
         if var.kind != "B":
@@ -389,17 +397,21 @@ def run_enum(cfg):
                                                      for y in ysets))))
         if ys:
             best = objs[0]
+            tbest = O(*pt(_p(ysets[0], n)))  # true objective of the first yield
+            d = DELTA_Z
             goals.append(("first-is-global-optimum",
-                          z3.And([z3.Implies(F(*pt(p)), best <= O(*pt(p))) for p in pts])))
+                          z3.And([z3.Implies(F(*pt(p)), tbest <= O(*pt(p))) for p in pts])))
             goals.append(("yield-feasible-with-reported-objective",
-                          z3.And([z3.And(F(*pt(_p(y, n))), O(*pt(_p(y, n))) == o)
+                          z3.And([z3.And(F(*pt(_p(y, n))), O(*pt(_p(y, n))) - o <= d,
+                                         o - O(*pt(_p(y, n))) <= d)
                                   for y, o in zip(ysets, objs)])))
             goals.append(("non-decreasing",
-                          z3.And([objs[i] <= objs[i + 1] for i in range(len(objs) - 1)]
-                                 or [z3.BoolVal(True)])))
+                          z3.And([objs[i] <= objs[i + 1] + 2 * d
+                                  for i in range(len(objs) - 1)] or [z3.BoolVal(True)])))
             goals.append(("within-gap",
-                          z3.And([o < (1 + gz) * best + eps for o in objs])))
-            ub = (1 + gz) * best
+                          z3.And([O(*pt(_p(y, n))) < (1 + gz) * tbest + eps + 4 * d
+                                  for y in ysets])))
+            ub = (1 + gz) * tbest
         if cfg.get("limit") is None:
             # completeness at termination
             comp = []
@@ -407,8 +419,8 @@ def run_enum(cfg):
                 if name_of(p) in ysets:
                     continue
                 if ys:
-                    dom = [z3.And(o <= O(*pt(p)))
-                           for y, o in zip(ysets, objs) if set(y) <= set(name_of(p))]
+                    dom = [O(*pt(_p(y, n))) <= O(*pt(p))
+                           for y in ysets if set(y) <= set(name_of(p))]
                     comp.append(z3.Implies(z3.And(F(*pt(p)), O(*pt(p)) <= ub),
                                            z3.Or(dom) if dom else z3.BoolVal(False)))
                 else:
@@ -466,8 +478,19 @@ def _enum_violation(res, cfg, label, mdl, F, O, pts, gz, ysets):
         o = float(symx.model_value(mdl, O(*[z3.BoolVal(b) for b in p])))
         table["".join("1" if b else "0" for b in p)] = [f, o]
     gap = float(symx.model_value(mdl, gz))
+    noise = []
+    for k in range(1, 2 ** n + 3):
+        r = z3.Real(f"obj{k}")
+        xs = [z3.Bool(f"x{k}_{i}") for i in range(n)]
+        try:
+            rv = symx.model_value(mdl, r, None)
+            xv = [bool(symx.model_value(mdl, x)) for x in xs]
+            tv = symx.model_value(mdl, O(*[z3.BoolVal(b) for b in xv]))
+            noise.append(float(rv - tv) if rv is not None else 0.0)
+        except Exception:  # noqa
+            noise.append(0.0)
     rp = {"kind": "enum", "n": n, "gap": gap, "limit": cfg.get("limit"), "table": table,
-          "label": label}
+          "label": label, "noise": noise}
     ok, msg = replay(rp)
     res["stats"]["replays"] = res["stats"].get("replays", 0) + 1
     if ok:
@@ -495,8 +518,11 @@ def replay_enum(o):
     m.setObjective(0)
     pts = list(itertools.product([False, True], repeat=n))
 
+    noise = o.get("noise") or []
+
     class Brute:
         cur = None
+        k = 0
 
         def solve(self, model):
             best = None
@@ -519,7 +545,9 @@ def replay_enum(o):
             if best is None:
                 raise lpi.NoSolutionsError("none")
             self.cur = best[0]
-            return "optimal", best[1]
+            self.k += 1
+            nz = noise[self.k - 1] if self.k - 1 < len(noise) else 0.0
+            return "optimal", max(0.0, best[1] + max(-DELTA, min(DELTA, nz)))
 
         def value(self, model, var):
             if var.kind != "B":
@@ -545,20 +573,20 @@ def replay_enum(o):
         return True, f"feasible model {feas} but nothing yielded"
     if ys:
         best = min(feas.values())
-        if abs(ys[0][0] - best) > 1e-9:
+        if ys[0][1] not in feas or abs(feas[ys[0][1]] - best) > 1e-12:
             return True, f"first yield {ys[0]} is not the optimum {best}"
         for ov, nm in ys:
-            if nm not in feas or abs(feas[nm] - ov) > 1e-9:
+            if nm not in feas or abs(feas[nm] - ov) > DELTA * 1.01:
                 return True, f"yield {nm} infeasible or wrong objective {ov}"
-            if not ov < (1 + gap) * best + eps:
-                return True, f"yield {nm} ({ov}) outside gap of {best}"
-        if any(ys[i][0] > ys[i + 1][0] + 1e-12 for i in range(len(ys) - 1)):
+            if not feas[nm] < (1 + gap) * best + eps + 4 * DELTA:
+                return True, f"yield {nm} ({feas[nm]}) outside gap of {best}"
+        if any(ys[i][0] > ys[i + 1][0] + 2 * DELTA * 1.01 for i in range(len(ys) - 1)):
             return True, f"objectives decrease: {ys}"
         if limit is None:
             for nm, ov in feas.items():
                 if nm in names or ov > (1 + gap) * best:
                     continue
-                if not any(set(y) <= set(nm) and yo <= ov + 1e-12 for yo, y in ys):
+                if not any(set(y) <= set(nm) and feas[y] <= ov + 1e-12 for yo, y in ys):
                     return True, (f"within-gap assignment {nm} ({ov}) neither yielded "
                                   f"nor dominated by a yielded subset; yields={ys}")
         elif len(ys) > limit:
